@@ -1,0 +1,65 @@
+//go:build verif
+// +build verif
+
+// Read-only accessors and clock injection used by the verification harness
+// (/verif). Compiled only with -tags verif; nothing here changes behaviour.
+
+package motion
+
+import (
+	"time"
+
+	"github.com/TheCacophonyProject/go-cptv/cptvframe"
+)
+
+// VerifLoopState exposes the ring indices of a FrameLoop.
+func (fl *FrameLoop) VerifLoopState() (size, currentIndex, oldest int, bufferFull bool) {
+	return fl.size, fl.currentIndex, fl.oldest, fl.bufferFull
+}
+
+// VerifFrameLoop returns the processor's pre-trigger ring.
+func (mp *MotionProcessor) VerifFrameLoop() *FrameLoop { return mp.frameLoop }
+
+// VerifDetector returns the processor's motion detector.
+func (mp *MotionProcessor) VerifDetector() *motionDetector { return mp.motionDetector }
+
+// VerifSetLogClock replaces the clock of the processor's log limiter.
+func (mp *MotionProcessor) VerifSetLogClock(now func() time.Time) { mp.log.VerifSetClock(now) }
+
+// VerifProcState exposes the recording state machine's variables.
+func (mp *MotionProcessor) VerifProcState() (isRecording bool, framesWritten, writeUntil, triggered, crFrames, snapshotFrames int, startSnapshot, snapshotRecording bool) {
+	return mp.isRecording, mp.framesWritten, mp.writeUntil, mp.triggered, mp.crFrames, mp.snapshotFrames, mp.StartSnapshot, mp.SnapshotRecording
+}
+
+// VerifDetectorState is a snapshot of the detector's observable internals.
+type VerifDetectorState struct {
+	TempThresh       uint16
+	BackgroundFrames int
+	FirstDiff        bool
+	AffectedByFFC    bool
+	Background       *cptvframe.Frame
+	Weights          [][]float32
+	FlooredSize      int
+	FlooredCur       int
+	FlooredOldest    int
+	FlooredFull      bool
+}
+
+// VerifState returns the detector's internals (pointers alias live state).
+func (d *motionDetector) VerifState() VerifDetectorState {
+	return VerifDetectorState{
+		TempThresh:       d.tempThresh,
+		BackgroundFrames: d.backgroundFrames,
+		FirstDiff:        d.firstDiff,
+		AffectedByFFC:    d.affectedByFCC,
+		Background:       d.background,
+		Weights:          d.backgroundWeight,
+		FlooredSize:      d.flooredFrames.size,
+		FlooredCur:       d.flooredFrames.currentIndex,
+		FlooredOldest:    d.flooredFrames.oldest,
+		FlooredFull:      d.flooredFrames.bufferFull,
+	}
+}
+
+// VerifStart returns the edge-pixel offset handed to the frame parser.
+func (d *motionDetector) VerifStart() int { return d.start }
